@@ -377,3 +377,50 @@ def apply_fault(tree, fault):
 def strip_decl(tree):
     """JSON-able rendering of an instance tree (for samples / replay files)."""
     return ser(tree)
+
+
+# ---------------------------------------------------------------------------------------- global style
+
+def xsd_components(g):
+    """'Venetian blind' rendering of a Gen model: every complex element's type becomes a named global
+    complexType (T_<element>), the named simple types stay global, the root is the only global
+    element.  Returns (schema attributes text, [global component texts]) so that a caller can permute
+    the components or distribute them over included documents without touching their content."""
+    comps = []
+    for m in NAMED_SIMPLE.split('</xs:simpleType>'):
+        if m:
+            comps.append(m + '</xs:simpleType>')
+    p = 't:' if g.tns else ''
+
+    def elem(e, occ='', glob=False):
+        nil = ' nillable="true"' if e.get('nillable') else ''
+        if 'simple' in e and not e.get('attrs'):
+            return '<xs:element name="%s" type="%s"%s%s/>' % (e['name'], g.tref(e['simple']), occ, nil)
+        tname = 'T_' + e['name']
+        a = ''.join(g.x_attr(x) for x in e.get('attrs', []))
+        if 'simple' in e:
+            comps.append('<xs:complexType name="%s"><xs:simpleContent><xs:extension base="%s">%s</xs:extension>'
+                         '</xs:simpleContent></xs:complexType>' % (tname, g.tref(e['simple']), a))
+        else:
+            mixed = ' mixed="true"' if e.get('mixed') else ''
+            comps.append('<xs:complexType name="%s"%s>%s%s</xs:complexType>' % (tname, mixed, group(e['model']), a))
+        idc = ''
+        if e.get('idc'):
+            q = 't:' if (g.tns and g.qual) else ''
+            idc = ('<xs:key name="K"><xs:selector xpath="%sitem"/><xs:field xpath="@kid"/></xs:key><xs:keyref '
+                   'name="KR" refer="%sK"><xs:selector xpath="%sref"/><xs:field xpath="@rid"/></xs:keyref>'
+                   % (q, p, q))
+        if idc:
+            return '<xs:element name="%s" type="%s%s"%s%s>%s</xs:element>' % (e['name'], p, tname, occ, nil, idc)
+        return '<xs:element name="%s" type="%s%s"%s%s/>' % (e['name'], p, tname, occ, nil)
+
+    def group(gr, occ=None):
+        body = ''.join(elem(k[1], occ_s(k[2], k[3])) if k[0] == 'e' else group(k[1], (k[2], k[3]))
+                       for k in gr['kids'])
+        o = occ_s(*occ) if occ else occ_s(gr['mn'], gr['mx'])
+        return '<xs:%s%s>%s</xs:%s>' % (gr['kind'], o, body, gr['kind'])
+
+    comps.append(elem(g.root, glob=True))
+    t = ' targetNamespace="%s" xmlns:t="%s"' % (g.tns, g.tns) if g.tns else ''
+    q = ' elementFormDefault="qualified"' if g.qual else ''
+    return 'xmlns:xs="%s"%s%s' % (XS, t, q), comps
